@@ -269,6 +269,10 @@ class Verdict:
                 tail = c.get('stderr', '')
                 m = re.search(r'(==\d+==ERROR.*?)(?:\n\n|$)', tail, re.S)
                 self.add(prop, 'san:' + c['key'], (m.group(1) if m else tail)[-1500:], rp)
+                if prop != self.prop:
+                    # memory safety is C01's subject, but a case of this check's own workload on which the library died is a
+                    # case for which what the property promises was not delivered (nothing was reported at all)
+                    self.add(self.prop, 'crash:' + c['key'], 'the library crashed on a case of this check\'s workload; ' + (m.group(1) if m else tail)[-1200:], rp)
             if r.get('hung'):
                 raise Inconclusive('harness process exceeded its wall-clock watchdog')
 
